@@ -351,6 +351,9 @@ func augmentCall(call *Call, f *ast.FuncDecl) {
 					return strconv.FormatUint(v, 10)
 				})
 				str = fmt.Sprintf("%s(%s len=%s cap=%s)", t, name, lenStr, capStr)
+			} else if strings.HasPrefix(t, "map[") || strings.HasPrefix(t, "chan ") || t == "func" {
+				// Maps, channels and funcs are passed as a single pointer.
+				str = fmt.Sprintf("%s(%s)", t, popName())
 			} else {
 				if i < len(call.Args.Values) && call.Args.Values[i].IsAggregate {
 					// If top-level argument is an aggregate-type, include each
